@@ -1135,7 +1135,9 @@ class Forall(BeginStatement):
     name = ""
 
     def process_item(self):
-        self.specs = self.item.get_line()[6:].lstrip()[1:-1].strip()
+        self.specs = self.item.apply_map(
+            self.item.get_line()[6:].lstrip()[1:-1].strip()
+        )
         return BeginStatement.process_item(self)
 
     def tostr(self):
